@@ -33,6 +33,8 @@ INITS = [
     [["a", "f8", [None, None]], ["s", "str", [None, None]]],
     [["u", "U", ["a", None, "b"]], ["o", "obj", [None, 2, 1]], ["t", "us", ["2020-02-29T23:59:59.999999", None, "1970-01-01T00:00:00"]]],
     [["d", "td", ["3", None, "1"]], ["w", "u1", [200, 0, 5]], ["s", "str", [V.LONG_B, V.LONG_A, None]]],
+    # names that hold shell-pattern characters next to names those patterns would match: a name is a name
+    [["w[k]", "i8", [1, 2]], ["wk", "str", ["x", None]], ["a*", "f8", ["1.0", None]], ["ab", "b1", [True, False]], ["a?", "i8", [5, 6]]],
 ]
 
 BUILTIN = None
